@@ -123,7 +123,8 @@ pub fn run(args: &Args) -> Report {
     let rep = par_run(n_threads(), n_commit, |i, rep| {
         let mut rng = base.fork(&format!("c{i}"));
         let d0 = rng.felt();
-        let n: u8 = rng.range(10, 14) as u8;
+        // difficulties 0..=3 (every nonce is good at 0) and 10..=14
+        let n: u8 = if i % 3 == 0 { (i / 3 % 4) as u8 } else { rng.range(10, 14) as u8 };
         let mut t = Transcript::new(d0);
         // put the transcript in a non-initial state
         let pre: Vec<Felt> = (0..rng.below(3)).map(|_| rng.felt()).collect();
@@ -138,7 +139,7 @@ pub fn run(args: &Args) -> Report {
         }
         let digest = m.digest.to_bytes_be();
         let good = grind(kind, &digest, n, n as u32, false, rng.next(), 1 << 22);
-        let bad = grind(kind, &digest, n, n as u32 - 1, true, rng.next(), 1 << 22);
+        let bad = if n == 0 { None } else { grind(kind, &digest, n, n as u32 - 1, true, rng.next(), 1 << 22) };
         rep.case(&format!("commit|{}|{n}", hex(&d0)), true);
         if let Some(nonce) = bad {
             let before = (*t.digest(), *t.counter());
@@ -159,6 +160,7 @@ pub fn run(args: &Args) -> Report {
             } else if *t.digest() != m.digest || *t.counter() != m.counter {
                 rep.violation("C09|commit-did-not-absorb-nonce", "after a successful commit the transcript is not absorb_u64(nonce) of the previous state", json!({"n_bits": n, "nonce": nonce}));
             } else {
+                rep.inc(&format!("commit.absorbed_at_n_bits.{}", if n < 4 { "0-3" } else { "10-14" }));
                 // the next challenge depends on the nonce
                 let a = t.random_felt_to_prover();
                 if a != m.squeeze() {
